@@ -4,6 +4,7 @@ package zzverif
 
 import (
 	"fmt"
+	dtpb "github.com/google/fhir/go/proto/google/fhir/proto/r4/core/datatypes_go_proto"
 	"regexp"
 	"strconv"
 	"strings"
@@ -427,6 +428,17 @@ func c13RunUnit(ctx *Ctx, c c13UnitCase) {
 	u := quoteFP(c.Unit)
 	outTo := evalWith("%x.toQuantity("+u+")", nil, vars)
 	outConv := evalWith("%x.convertsToQuantity("+u+")", nil, vars)
+	// the same unit supplied as a System String variable and as FHIR string / code elements
+	// must give the same answers as the literal
+	for i, uv := range []any{system.String(c.Unit), &dtpb.String{Value: c.Unit}, &dtpb.Code{Value: c.Unit}} {
+		vars["u"] = uv
+		vt, vc := evalWith("%x.toQuantity(%u)", nil, vars), evalWith("%x.convertsToQuantity(%u)", nil, vars)
+		if vt.String() != outTo.String() || vc.String() != outConv.String() {
+			ctx.Fail("conv Quantity(unit): the unit argument behaves differently when it is not a literal ("+[]string{"System String variable", "FHIR string element", "FHIR code element"}[i]+")", fmt.Sprintf("x=%v unit=%q: literal → %s / %s ; variable → %s / %s", c.X, c.Unit, outTo, outConv, vt, vc))
+			return
+		}
+	}
+	delete(vars, "u")
 	kind := c.X.K
 	if strings.HasPrefix(kind, "msg.") {
 		kind = "complex"
